@@ -588,6 +588,19 @@ func runC14(r *Run) {
 		}
 		folds := len(callsMatching(f, false, nameIs("strings.EqualFold")))
 		r.atLeast("directive searches", n+folds, 1)
+		// … on every Cache-Control field line of the request (several lines are one list): the text comes from an
+		// accessor that hands out all values, not from Get/Peek, which answer the first line only
+		single, all := 0, 0
+		for _, c := range callsIn(f, false) {
+			switch {
+			case strings.HasSuffix(c.Name, ".Ctx).Get"), strings.HasSuffix(c.Name, "RequestHeader).Peek"):
+				single++
+			case strings.HasSuffix(c.Name, "RequestHeader).PeekAll"), strings.HasSuffix(c.Name, ".Ctx).GetReqHeaders"), strings.HasSuffix(c.Name, "RequestHeader).VisitAll"):
+				all++
+			}
+		}
+		r.check(all > 0 && single == 0, "hasRequestDirective:every-field-line", r.fpos(f), "the directive is searched in every Cache-Control line of the request",
+			"only the first Cache-Control line of the request is looked at: `Cache-Control: max-age=0` followed by a second line `Cache-Control: no-cache` (or no-store) is served from the cache / stored")
 	})
 
 	r.rule("R12", "what the cache keeps of a response is copied out of it: the bytes stored in an item — body, content type, encoding, and both the names and the values of the stored headers — are copies, not views of the response's (or a header visitor's) buffers, which the next response written through the same context overwrites (E3)", func() {
